@@ -279,17 +279,129 @@ def bounded(rep, tier, seed):
                 replay=dict(reproduced=True, detail=f'conf {cn}: {f}'[:300]), replay_script=script)
     rep.bounded.append(dict(kind='generated modules through the real BeartypeNodeTransformer, structural clauses checked on the output (bounded stand-in, NOT counted as proved)', modules_x_confs=cases, failing=len(fails), confs=4))
 
+def isolation(rep):
+    """last sentence of C05: a definition beartype cannot handle is left unchecked with a warning while every other definition - including
+    sibling methods of the same class - is still checked.  (F) beartype_object / _beartype_object_nonfatal: under a non-fatal configuration
+    no Exception raised by the lower-level decorators escapes: it is turned into the configured warning and the object is returned
+    unchanged.  (F) the member loop of beartype_type decorates every member through that entry point (props.c13.type_part)."""
+    from pyvc import funcmode, model as M, discharge, symx
+    from pyvc.symx import Exec, St, VObj, VPy, VBool, VExc
+    import beartype._decor.decorcore as mod
+    uni = M.Universe()
+    for c in (Exception, BaseException, Warning, type): uni.const(c)
+    OBJ = z3.Const('obj', M.Obj); CONF = z3.Const('conf', M.Obj); E = z3.Const('decoration_exc', M.Obj); RES = z3.Const('decorated', M.Obj)
+    def F(n): return z3.Const(f'H_{n}', z3.ArraySort(M.Obj, M.Obj))
+    WCLS = z3.Select(F('warning_cls_on_decorator_exception'), CONF); NONE = uni.const(None)
+    raises = z3.Bool('lower_level_decorator_raises')
+    def m_fatal(ex, s, f, a, kw, w):
+        outs = []
+        for s2, r in ex.fork(s.ev('fatal_called'), raises):
+            if r: ex.raised.append((s2.ev('decorator_raised'), VObj(E)))
+            else: outs.append((s2, VObj(RES)))
+        return outs
+    def m_warn(ex, s, f, a, kw, w): return [(s.ev('issue_warning', dict(kw).get('warning_cls')), VPy(None))]
+    def m_str(ex, s, f, a, kw, w): return [(s, VObj(M.fresh('text')))]
+    def m_sub(ex, s, f, a, kw, w): return [(s, VBool(M.subc(ex.obj(a[0]), uni.const(a[1].o))))]
+    # ---- _beartype_object_nonfatal
+    fobj, node, _ = funcmode.load('beartype/_decor/decorcore.py', '_beartype_object_nonfatal')
+    cm = {mod._beartype_object_fatal: m_fatal, mod.issue_warning: m_warn, mod.format_exc: m_str, mod.uppercase_str_char_first: m_str, mod.prefix_object: m_str, mod.is_type_subclass: m_sub, '.replace': m_str}
+    ex = Exec(uni, dict(mod.__dict__), call_model=cm, name='_beartype_object_nonfatal'); ex.fields_mode = True; ex.method_names = {'replace'}
+    pre = (M.subc(WCLS, uni.const(Warning)), WCLS != NONE)      # validated by BeartypeConf (C17): a Warning subclass
+    outs = ex.run_function(node, St((), pre), (VObj(OBJ), VObj(CONF)), {}, fobj)
+    pr = discharge.Prover(uni.axioms())
+    for ob in ex.obls:
+        r = pr.prove(list(ob.pc), ob.goal); rep.add(f'C05.nonfatal.{ob.kind}#{ob.name.rsplit(".", 1)[-1]}', r.status, time=r.time, backend=r.backend, where=ob.where)
+    n = 0
+    for i, (s, v) in enumerate(outs):
+        n += 1; raised = any(e[0] == 'decorator_raised' for e in s.events); warned = [e for e in s.events if e[0] == 'issue_warning']
+        if raised:
+            ok = isinstance(v, VObj) and v.t.eq(OBJ) and len(warned) == 1 and isinstance(warned[0][1], VObj) and warned[0][1].t.eq(WCLS)
+            rep.add(f'C05.nonfatal.post.failure_becomes_warning.path{i}', 'proved' if ok else 'refuted', backend='structural', where='a decoration failure returns the object unchanged after exactly one warning of the configured category')
+        else:
+            ok = isinstance(v, VObj) and v.t.eq(RES) and not warned
+            rep.add(f'C05.nonfatal.post.success_returns_decorated.path{i}', 'proved' if ok else 'refuted', backend='structural')
+    for i, (s, v) in enumerate(ex.raised):
+        # whatever still escapes is not an Exception (KeyboardInterrupt & co.), i.e. the handler catches every Exception
+        r = pr.prove(list(s.pc), z3.And(ex.obj(v) == E, z3.Not(M.inst(E, uni.const(Exception))))) if isinstance(v, VObj) else None
+        rep.add(f'C05.nonfatal.post.no_exception_escapes.path{i}', r.status if r else 'refuted', time=r.time if r else 0, backend=r.backend if r else 'structural', where=f'escaping: {v}')
+        n += 1
+    if not n: rep.error('C05.nonfatal: no path')
+    # ---- beartype_object: the non-fatal path is taken exactly when the configuration names a warning category
+    fobj, node, _ = funcmode.load('beartype/_decor/decorcore.py', 'beartype_object')
+    def m_tag(tag): return lambda ex_, s, f, a, kw, w: [(s.ev('via', tag), VObj(M.fresh(tag)))]
+    ex = Exec(uni, dict(mod.__dict__), call_model={mod._beartype_object_fatal: m_tag('fatal'), mod._beartype_object_nonfatal: m_tag('nonfatal')}, name='beartype_object'); ex.fields_mode = True
+    outs = ex.run_function(node, St(), (VObj(OBJ), VObj(CONF)), {}, fobj)
+    pr = discharge.Prover(uni.axioms())
+    for i, (s, v) in enumerate(outs):
+        via = [e[1] for e in s.events if e[0] == 'via']
+        r = pr.prove(list(s.pc), (WCLS != NONE) == z3.BoolVal(via == ['nonfatal']))
+        rep.add(f'C05.beartype_object.post.nonfatal_iff_warning_cls.path{i}', r.status, time=r.time, backend=r.backend, where='beartype_object isolates failures exactly when conf.warning_cls_on_decorator_exception is set (always under the import hooks)')
+    if not outs: rep.error('C05.beartype_object: no path')
+    # ---- the member loop of beartype_type goes through that entry point
+    from props import c13
+    c13.type_part(rep, prefix='C05', only='member_failure_isolated')
+
+ISO_SRC = """
+import sys, os, tempfile, warnings, importlib, textwrap
+from beartype.claw import beartype_package
+from beartype.roar import BeartypeClawDecorWarning, BeartypeCallHintViolation
+from beartype.claw._clawstate import claw_state
+MODS = {
+ 'mid': 'from typing import NoReturn\\nclass K:\\n    def a(self, x: int) -> int: return x\\n    def bad(self, x: NoReturn): return x\\n    def b(self, x: int) -> int: return x\\n    @staticmethod\\n    def c(x: int) -> int: return x\\n',
+ 'first': 'from typing import NoReturn\\nclass K:\\n    def bad(self, x: NoReturn): return x\\n    def a(self, x: int) -> int: return x\\n    def b(self, x: int) -> int: return x\\n    @classmethod\\n    def c(cls, x: int) -> int: return x\\n',
+ 'nested': 'from typing import NoReturn\\nclass K:\\n    class In:\\n        def bad(self, x: NoReturn): return x\\n        def a(self, x: int) -> int: return x\\n    def a(self, x: int) -> int: return x\\n    def b(self, x: int) -> int: return x\\n    def c(self, x: int) -> int: return x\\n',
+ 'func': 'from typing import NoReturn\\ndef bad(x: NoReturn): return x\\nclass K:\\n    def a(self, x: int) -> int: return x\\n    def b(self, x: int) -> int: return x\\n    def c(self, x: int) -> int: return x\\n',
+}
+d = tempfile.mkdtemp(prefix='c05iso'); pkg = os.path.join(d, 'c05isopkg'); os.mkdir(pkg); open(os.path.join(pkg, '__init__.py'), 'w').close()
+for n, src in MODS.items(): open(os.path.join(pkg, n + '.py'), 'w').write(src.replace('\\n', chr(10)))
+sys.path.insert(0, d); sys.dont_write_bytecode = True
+beartype_package('c05isopkg')
+bad = []
+for n in MODS:
+    with warnings.catch_warnings(record=True) as rec:
+        warnings.simplefilter('always')
+        try: m = importlib.import_module('c05isopkg.' + n)
+        except Exception as e: bad.append((n, 'import failed: ' + type(e).__name__)); continue
+    if not any(issubclass(w.category, BeartypeClawDecorWarning) for w in rec): bad.append((n, 'no BeartypeClawDecorWarning'))
+    k = m.K()
+    for meth in ('a', 'b', 'c'):
+        try: getattr(k, meth)('not an int'); bad.append((n, f'K.{meth} is NOT checked'))
+        except BeartypeCallHintViolation: pass
+    if n == 'nested':
+        try: m.K.In().a('not an int'); bad.append((n, 'K.In.a is NOT checked'))
+        except BeartypeCallHintViolation: pass
+import shutil; shutil.rmtree(d, ignore_errors=True); claw_state.reinit()
+print(bad)
+sys.exit(1 if bad else 0)
+"""
+def isolation_bounded(rep):
+    """bounded (real import hook, NOT counted as proved): modules with one undecoratable definition import, warn, and keep every sibling checked"""
+    import subprocess, sys
+    from pyvc import VERIF, REPO
+    src = f"import sys, os\nos.environ['VERIF_REPO'] = {REPO!r}\nsys.path.insert(0, {VERIF!r})\nimport pyvc; pyvc.use_repo()\n" + ISO_SRC
+    p = subprocess.run([sys.executable, '-c', src], capture_output=True, text=True, timeout=180)
+    if p.returncode not in (0, 1) or (p.returncode == 1 and not p.stdout.strip().startswith('[')): rep.error('C05 isolation_bounded harness: ' + (p.stdout + p.stderr)[-600:]); return
+    if p.returncode == 1:
+        rep.add('C05.isolation.bounded.siblings_still_checked', 'refuted', backend='runtime-contract', where=p.stdout.strip()[-400:], solver_output='bounded run-time contract through the real import hook (not a proof)',
+                replay=dict(reproduced=True, detail=p.stdout.strip()[-400:]), replay_script=("os.environ['VERIF_REPO'] = %r\nimport pyvc; pyvc.use_repo()\n" % REPO) + ISO_SRC)
+    rep.bounded.append(dict(kind='undecoratable definition among siblings under the real import hook (bounded stand-in, NOT counted as proved)', modules=4, failing=int(p.returncode == 1),
+                            bound='4 module shapes (bad method first / in the middle, bad method of a nested class, bad module-level function) x 3-4 sibling methods'))
+
 def main(tier, seed):
     rep = report.Report('C05', tier, seed, 'other', f'./check C05 --tier {tier}')
     try: funcmode_part(rep)
     except Exception: rep.error('C05 funcmode: ' + traceback.format_exc()[-2500:])
     try: bounded(rep, tier, seed)
     except Exception: rep.error('C05 bounded: ' + traceback.format_exc()[-2500:])
+    for fn in (isolation, isolation_bounded):
+        try: fn(rep)
+        except Exception: rep.error(f'C05 {fn.__name__}: ' + traceback.format_exc()[-2500:])
     files = ['beartype/claw/_ast/clawastmain.py', 'beartype/claw/_ast/_kind/clawastassign.py', 'beartype/claw/_ast/_kind/clawastmodule.py', 'beartype/claw/_ast/_kind/clawastimport.py']
-    rep.functions = ['BeartypeNodeTransformer.visit_FunctionDef', 'visit_ClassDef', 'visit_AnnAssign', 'visit_Module (loop invariant)', '_decorate_node_beartype'] + [f'{p}@{report.src_hash(p)}' for p in files]
+    rep.functions = ['BeartypeNodeTransformer.visit_FunctionDef', 'visit_ClassDef', 'visit_AnnAssign', 'visit_Module (loop invariant)', '_decorate_node_beartype', 'decorcore.beartype_object', 'decorcore._beartype_object_nonfatal', 'decortype.beartype_type (member loop: failure isolation)'] + [f'{p}@{report.src_hash(p)}' for p in files]
     from pyvc import model as M
     rep.trusted = ['pyvc', 'z3', 'ast.NodeTransformer.generic_visit (stdlib: the induction over the module)'] + M.ASSUMED_SEMANTICS
-    rep.assumptions = ['NOT claimed (no semantics of Python programs within reach of per-function contracts): the transformed module behaves like the hand-written one, raises at the first offending statement, evaluates each original expression exactly once, survives un-handleable hints with a BeartypeClawDecorWarning',
+    rep.assumptions = ['NOT claimed (no semantics of Python programs within reach of per-function contracts): the transformed module behaves like the hand-written one, raises at the first offending statement, evaluates each original expression exactly once',
+                       'failure isolation: issue_warning does not raise (warnings are not turned into errors); _beartype_object_fatal is an abstract callee that returns or raises',
                        'AST nodes are objects with fields; list insertions are events; helper node factories (make_node_*) are abstract callees']
     rep.extra['explanation'] = 'structural postconditions of the transformer methods in function mode (shape of the output as a function of the input node and scope stack) plus a bounded generator of modules through the real transformer'
     return rep.finish()
